@@ -22,6 +22,8 @@ type GenConfig struct {
 	Crashes         int  // max crash points
 	Faults          int  // max store faults
 	ReadFaults      int  // max failing store reads (issued by requests)
+	Closes          int  // max graceful shutdowns (Commander.Close with requests in flight, then a restart)
+	UniqueIKPct     int  // percentage of requests carrying an idempotency key of their own (never used before)
 	RevertByRef     bool // reverts may designate their target by the reference it was created under
 	RefBurstPct     int  // percentage of rounds that are a burst of creates from @world sharing one reference (no account lock in common)
 	Cancels         int
@@ -77,7 +79,7 @@ func genCreate(t *rapid.T, cfg *GenConfig, op *Op) {
 		}
 		return
 	}
-	mode := rapid.SampledFrom([]string{"literal", "literal", "variable", "meta", "overdraft", "unbounded", "ordered", "multi", "postings", "balance", "fromworld"}).Draw(t, "mode")
+	mode := rapid.SampledFrom([]string{"literal", "literal", "variable", "meta", "overdraft", "unbounded", "ordered", "multi", "postings", "balance", "fromworld", "sendall", "sendall-variable"}).Draw(t, "mode")
 	if mode == "meta" && !cfg.MetaNaming {
 		mode = "variable"
 	}
@@ -132,6 +134,11 @@ func genCreate(t *rapid.T, cfg *GenConfig, op *Op) {
 			}
 			op.Postings = append(op.Postings, ledger.Posting{Source: s, Destination: d, Asset: asset, Amount: big.NewInt(int64(rapid.SampledFrom([]int{0, 10, 40, 80}).Draw(t, "pamt")))})
 		}
+	case "sendall":
+		op.Script = fmt.Sprintf("send [%s *] (\n  source = @%s\n  destination = @%s\n)\n", asset, src, dst)
+	case "sendall-variable":
+		op.Script = fmt.Sprintf("vars {\n  account $s\n}\nsend [%s *] (\n  source = $s\n  destination = @%s\n)\n", asset, dst)
+		op.Vars = map[string]string{"s": src}
 	case "balance":
 		op.Script = fmt.Sprintf("vars {\n  monetary $m = balance(@%s, %s)\n}\nsend $m (\n  source = @%s\n  destination = @%s\n)\n", src, asset, src, dst)
 	case "fromworld":
@@ -219,6 +226,9 @@ func GenPlan(t *rapid.T, cfg GenConfig) *Plan {
 			o := add(Op{Kind: kind, Barrier: start})
 			if len(cfg.IKPool) > 0 {
 				o.IK = rapid.SampledFrom(cfg.IKPool).Draw(t, "ik")
+			}
+			if cfg.UniqueIKPct > 0 && rapid.IntRange(0, 99).Draw(t, "uniqueIK") < cfg.UniqueIKPct {
+				o.IK = "only-" + o.Tag // a key no other request of the history carries
 			}
 			if cfg.DryRunPct > 0 && rapid.IntRange(0, 99).Draw(t, "dry") < cfg.DryRunPct {
 				o.DryRun = true
@@ -317,6 +327,15 @@ func GenPlan(t *rapid.T, cfg GenConfig) *Plan {
 			p.FaultAt = append(p.FaultAt, rapid.IntRange(0, 8).Draw(t, "faultAt"))
 		}
 	}
+	for i := 0; i < cfg.Closes; i++ {
+		switch rapid.IntRange(0, 5).Draw(t, "close") {
+		case 0:
+			p.CloseAt = append(p.CloseAt, rapid.IntRange(0, 120).Draw(t, "closeAt"))
+		case 1, 2:
+			// shortly after some log was handed to the batcher: the moment a shutdown meets work in flight
+			p.CloseAfterHandoff = append(p.CloseAfterHandoff, [2]int{rapid.IntRange(1, 10).Draw(t, "closeAfterHandoff"), rapid.IntRange(0, 8).Draw(t, "closeDelay")})
+		}
+	}
 	for i := 0; i < cfg.ReadFaults; i++ {
 		if rapid.IntRange(0, 2).Draw(t, "readFault") == 0 {
 			p.ReadFaultAt = append(p.ReadFaultAt, rapid.IntRange(0, 30).Draw(t, "readFaultAt"))
@@ -342,7 +361,7 @@ func PlanKey(p *Plan) string {
 	for _, o := range p.Ops {
 		fmt.Fprintf(&sb, "%s|%v|%s|%d|%s|%v|%s|%s|%d|%v|%s|%s|%v|%s;", o.Kind, o.DryRun, o.IK, o.Barrier, o.Script, o.Vars, postingsKey(o.Postings), o.Reference+">"+o.TargetRef, o.TargetTx, o.Force, o.TargetType, o.TargetAcc, o.Meta, o.Key)
 	}
-	fmt.Fprintf(&sb, "c%v f%v r%v x%v%v b%d s%v", p.CrashAt, p.FaultAt, p.ReadFaultAt, p.CancelAt, p.CancelAfter, p.BatchSize, p.SlowStore)
+	fmt.Fprintf(&sb, "c%v q%v%v f%v r%v x%v%v b%d s%v", p.CrashAt, p.CloseAt, p.CloseAfterHandoff, p.FaultAt, p.ReadFaultAt, p.CancelAt, p.CancelAfter, p.BatchSize, p.SlowStore)
 	return sb.String()
 }
 
